@@ -241,7 +241,8 @@ def check_C08(ctx):
         for root_spec, root_decls in (("", []), ("[-a]", [gen.mkopt("bool", "a", **{"def": ["false"]})])):
             for where in (0, 1):
                 good = gen.mkcmd("ok", decls=copy.deepcopy(sub_decls), spec="[-a] X...", before={"k": "ret"}, after={"k": "ret"})
-                broken = gen.mkcmd("sub s", decls=copy.deepcopy(sub_decls), spec=s, before={"k": "ret"}, after={"k": "ret"})
+                broken = gen.mkcmd("sub s", decls=copy.deepcopy(sub_decls), spec=s, before={"k": "ret"}, after={"k": "ret"},
+                                   hidden=rng.random() < 0.5)
                 subs = [good, broken] if where else [broken, good]
                 for pol in (0, 1, 2):
                     for argv in ([], ["-h"], ["sub"], ["s", "x"], ["sub", "-h"], ["sub", "--", "-h"], ["ok", "x"], ["ok"], ["ok", "-h"],
@@ -249,7 +250,10 @@ def check_C08(ctx):
                         root = gen.mkcmd("app", decls=copy.deepcopy(root_decls), spec=root_spec, policy=pol, subs=copy.deepcopy(subs),
                                          before={"k": "ret"}, after={"k": "ret"},
                                          action={"k": "ret"} if rng.random() < 0.5 else None)
-                        runs.append({"op": "run", "env": {}, "version": None, "root": root, "argv": argv})
+                        # the sub-command with the ill-formed spec is compiled on every one of these lines except
+                        # when the root's own Action runs (nothing given) and when its sibling "ok" is addressed
+                        must = not (argv == [] and root["action"]) and not (argv and argv[0] == "ok")
+                        runs.append({"op": "run", "env": {}, "version": None, "root": root, "argv": argv, "_must_panic": must, "_sub_spec": s})
     res = correspond(ctx, runs, ["outcome", "trace", "stderr"], "Run on specs")
     npanic = 0
     for c in runs:
@@ -258,6 +262,9 @@ def check_C08(ctx):
             npanic += 1
         if a["outcome"][0] == "panic" and a["trace"]:
             ctx.violation("panic-before-hooks", "spec %r: callbacks ran before the panic: %r" % (c["root"]["spec"], a["trace"]), case=c)
+        if c.get("_must_panic") and ref_lex(c["_sub_spec"]) is None and not (a["outcome"][0] == "panic" and str(a["outcome"][1]).startswith("parse:")):
+            ctx.violation("panic-before-hooks", "sub-command %r (hidden: %r) has the ill-formed spec %r and is compiled by %r, but Run did not panic with "
+                          "the spec error: %r" % ("sub", [x["hidden"] for x in c["root"]["subs"] if x["name"] == "sub s"][0], c["_sub_spec"], c["argv"], a["outcome"]), case=c)
     ctx.stream("Run on specs", 0, spec_panics=npanic)
     # informational: the wording of the error messages (no property speaks about it)
     if stats["messages_differ"]:
@@ -768,11 +775,11 @@ def check_C17(ctx):
                     continue
                 used.update(nm.split())
                 k = rng.choice(list(defs))
-                decls.append(gen.mkopt(k, nm, desc=rng.choice(DESCS), env=rng.choice(["", "", "E1", "E1 E2", " E3 "]),
+                decls.append(gen.mkopt(k, nm, desc=rng.choice(DESCS), env=rng.choice(["", "", "E1", "E1 E2", " E3 ", "E1  E2", "E1\tE2", "E1 \n E2  E4", "\tE3"]),
                                        hide=rng.random() < 0.2, **{"def": list(rng.choice(defs[k]))}))
             for nm in rng.sample(["SRC", "DST", "X", "FILE_1"], rng.randint(0, 3)):
                 k = rng.choice(list(defs))
-                decls.append(gen.mkarg(k, nm, desc=rng.choice(DESCS), env=rng.choice(["", "", "EA"]),
+                decls.append(gen.mkarg(k, nm, desc=rng.choice(DESCS), env=rng.choice(["", "", "EA", "EA  EB", "EA\tEB"]),
                                        hide=rng.random() < 0.2, **{"def": list(rng.choice(defs[k]))}))
             rng.shuffle(decls)
             c = gen.mkcmd(name, decls=decls, desc=rng.choice(DESCS[:4]), longdesc=rng.choice(["", "", "the long\ndescription"]),
